@@ -3,7 +3,7 @@
    refuted otherwise (witness below, replayed on the real code: corpus/C03/history/np-min-absent.case). *)
 From Coq Require Import List ZArith Bool Lia.
 From Verif Require Import Lib.ListX C02.Model C03.Model C03.Spec C03.Proofs C03.Proofs_Runtime
-     C03.Proofs_Inv C03.Proofs_Flight C03.Proofs_Step C03.Proofs_Check.
+     C03.Proofs_Inv C03.Proofs_Flight C03.Proofs_Step C03.Proofs_Exact C03.Proofs_Check.
 Import ListNotations.
 Open Scope Z_scope.
 
@@ -45,7 +45,7 @@ Definition np_witness_ops : list op :=
   [ OCapacity (mkVec 100 100 100);
     OQuotaAdd 1 0 true (mkMask true true false) (mkVec 10 100 0) (mkMask true false false)
               (mkVec 5 0 0) (mkVec 0 0 0);
-    OPodAdd 1 1 true (mkVec 2 50 0) (mkMask true true false);
+    OPodAdd 1 1 true (mkVec 2 50 0) (mkMask true true false) false;
     OAttempt 1 ].
 
 Theorem admit_np_strict_refuted :
@@ -55,7 +55,7 @@ Theorem admit_np_strict_refuted :
 Proof.
   set (cfg := mkConfig false false).
   set (st := exec cfg init_state (firstn 3 np_witness_ops)).
-  exists cfg, st, (mkPod 1 1 (mkVec 2 50 0) (mkMask true true false) true false false).
+  exists cfg, st, (mkPod 1 1 (mkVec 2 50 0) (mkMask true true false) true false false false).
   destruct (path st 1) as [|q anc] eqn:Ep; [vm_compute in Ep; discriminate|].
   exists q, anc. vm_compute in Ep. injection Ep as <- <-.
   split; [vm_compute; reflexivity|]. split; [reflexivity|]. split; [vm_compute; reflexivity|].
@@ -100,8 +100,8 @@ Qed.
 Lemma MC_step cfg st o : MC (quotas st) -> mc_opb st o = true -> MC (quotas (fst (step cfg st o))).
 Proof.
   intros M Hb.
-  destruct o as [id parent lend decl mx mindecl mn w|id mx mindecl mn w|id qn np req keys|id|id|id|id|id|t
-                 |id qn np req keys|id|id|]; unfold step, apply_attempt; cbv zeta.
+  destruct o as [id parent lend decl mx mindecl mn w|id mx mindecl mn w|id qn np req keys term|id|id|id|id|id|t
+                 |id qn np req keys term|id|id|id term bind| |]; unfold step, apply_attempt; cbv zeta.
   - destruct (id <=? 0); cbn [orb fst]; [exact M|].
     destruct (find_quota id (quotas st)); cbn [orb fst]; [exact M|].
     match goal with |- context [negb ?b] => destruct b end; cbn [negb fst quotas]; [|exact M].
@@ -129,14 +129,20 @@ Proof.
   - exact M.
   - destruct (find_pod id (pods st)); cbn [fst]; [exact M|].
     destruct (find_quota qn (quotas st)); cbn [fst]; [|exact M].
+    destruct term; cbn [fst]; [cbn [quotas]; apply MC_touch; exact M|].
     unfold charge. cbn [quotas]. apply MC_upd_used. apply MC_touch. apply MC_taint. exact M.
   - destruct (find_quota id (quotas st)) as [q00|]; cbn [fst quotas]; [|exact M].
     apply MC_refresh. apply MC_map; [|exact M]. intros q _ Hq. destruct (q_id q =? id); exact Hq.
   - destruct (find_pod id (pods st)) as [p|]; cbn [fst]; [|exact M].
     destruct (p_assigned p); [cbn [fst quotas]; apply MC_touch; apply MC_upd_used; exact M|].
-    destruct (p_bound p); cbn [fst].
+    destruct (p_bound p && negb (p_term p)); cbn [fst].
     + unfold charge. cbn [quotas]. apply MC_upd_used. apply MC_touch. apply MC_taint. exact M.
     + cbn [quotas]. apply MC_touch. exact M.
+  - destruct (find_pod id (pods st)) as [p|]; cbn [fst]; [|exact M].
+    match goal with |- context [if ?b then _ else _] => destruct b end; cbn [fst].
+    + unfold charge. cbn [quotas]. apply MC_upd_used. apply MC_taint. exact M.
+    + exact M.
+  - cbn [fst quotas]. apply MC_refresh. apply MC_map; [intros q _ Hq; exact Hq|]. apply MC_taint. exact M.
   - exact M.
 Qed.
 
@@ -157,10 +163,10 @@ Proof.
 Qed.
 
 Theorem check_np_run cfg : forall ops wf st sn,
-  INV cfg wf st -> FL wf st sn -> MC (quotas st) -> mc_hist cfg st ops = true ->
+  INV cfg wf st -> FL wf st sn -> EXI wf st -> MC (quotas st) -> mc_hist cfg st ops = true ->
   check_np cfg st (dump st) ops (run cfg st ops) = 0.
 Proof.
-  induction ops as [|o t IH]; intros wf st sn I F M Hb; [reflexivity|].
+  induction ops as [|o t IH]; intros wf st sn I F X M Hb; [reflexivity|].
   cbn [mc_hist] in Hb. apply andb_true_iff in Hb. destruct Hb as [Hb1 Hb2].
   cbn [run]. destruct (step cfg st o) as [st' ob] eqn:Es. cbn [check_np].
   rewrite (sync_state_dump cfg wf st I).
@@ -176,10 +182,11 @@ Proof.
   rewrite Hc. cbn [Z.eqb negb].
   pose proof (force_model cfg st o) as Hfm. rewrite Es in Hfm. cbn [fst snd] in Hfm. rewrite Hfm.
   pose proof (step_dump cfg st o) as Hd. rewrite Es in Hd. cbn [fst snd] in Hd. rewrite Hd.
-  pose proof (INV_step cfg wf st sn o I F) as I'. pose proof (FL_step cfg wf st sn o I F) as F'.
+  pose proof (INV_step cfg wf st sn o I F X) as I'. pose proof (FL_step cfg wf st sn o I F) as F'.
+  pose proof (EXI_step cfg wf st sn o I X) as X'.
   pose proof (MC_step cfg st o M Hb1) as M'.
-  rewrite Es in I', F', M'. try rewrite Es in Hb2. cbn [fst] in I', F', M', Hb2.
-  apply (IH _ _ _ I' F' M' Hb2).
+  rewrite Es in I', F', X', M'. try rewrite Es in Hb2. cbn [fst] in I', F', X', M', Hb2.
+  apply (IH _ _ _ I' F' X' M' Hb2).
 Qed.
 
 (* clause 3 can only ever answer 0 or 3 *)
@@ -209,5 +216,5 @@ Theorem prop_code_full_run_mc cfg ops :
   mc_hist cfg init_state ops = true -> prop_code_full cfg ops (run cfg init_state ops) = 0.
 Proof.
   intro H. unfold prop_code_full. rewrite prop_code_run. cbn [Z.eqb negb].
-  apply (check_np_run cfg ops true init_state None (INV_init cfg true) (FL_init true)); [intros q []|exact H].
+  apply (check_np_run cfg ops true init_state None (INV_init cfg true) (FL_init true) (EXI_init true)); [intros q []|exact H].
 Qed.
